@@ -61,6 +61,46 @@ def symvals(symtext):
     return d
 
 
+def certificate_search(R, c, radius=3, max_labels=4):
+    """C02's executable certificate (Spec.Certificate.cert_check, extracted) for the macro program's claimed result,
+    checked on the IN-PLACE program: the claimed bits and global symbol values, plus values for the labels the inliner
+    introduced (the macro program does not report its block labels), searched around the in-place result's values"""
+    import itertools
+    if c['ci'][0] != "OK":
+        return False
+    fm = c['cm_raw'].split('\t')
+    claimed = fm[4] if len(fm) > 4 else ''
+    base = symvals(c['ci'][3])
+    fresh = [n for n in c['inl'].names if c17_gen.is_fresh(n) and n in base]
+    if len(fresh) > max_labels:
+        return False
+    deltas = sorted(range(-radius, radius + 1), key=abs)
+    combos = list(itertools.product(deltas, repeat=len(fresh)))
+    cases = []
+    for combo in combos:
+        extra = ''.join('%s=%x:-;' % (n, base[n] + d) for n, d in zip(fresh, combo) if base[n] + d >= 0)
+        cases.append((c['inl'], c['b'], c['m'], claimed + extra, c['cm'][1]))
+    ans = R.model_run(cases, mode="cert")
+    if any(a.startswith("CERT-OK") for a in ans):
+        return True
+    # the extracted certificate has no notation for boolean constants; fall back to the implementation on the in-place
+    # program with EVERY label pinned (globals to the claimed addresses, introduced labels to the candidate ones):
+    # it must reproduce exactly the claimed bits and symbols
+    claimed_vals = symvals(c['cm'][3])
+    texts = []
+    for combo in combos:
+        vals = dict(claimed_vals)
+        for n, d in zip(fresh, combo):
+            vals[n] = max(0, base[n] + d)
+        lines = pin_globals(list(zip(c['inl'].items, c['inl'].lines())), vals)
+        texts.append((c['prog'].isa.text() + '\n'.join(lines) + '\n', 30, c['s'], c['m']))
+    for a in R.impl(texts):
+        cr = asm_gen.canon_impl(a)
+        if cr[0] == "OK" and cr[1] == c['cm'][1] and msig(cr)[2] == msig(c['cm'])[2]:
+            return True
+    return False
+
+
 def macro_stream(chk, R, rng, n, size_static, tag):
     # candidates are pre-selected on the IN-PLACE program's outcome (all that assemble, one in five of the rejected ones):
     # rejected macro programs of depth 2-3 cost (budget+1)^depth inner rounds in the debug build
@@ -87,7 +127,7 @@ def macro_stream(chk, R, rng, n, size_static, tag):
     ndis = 0
     for c, a, b_, d, mo in zip(cases, ia, ib, da, ma):
         cm_, ci, cd, cmod = asm_gen.canon_impl(a), asm_gen.canon_impl(b_), asm_gen.canon_model(d), asm_gen.canon_model(mo)
-        c['cm'], c['ci'] = cm_, ci
+        c['cm'], c['ci'], c['cm_raw'] = cm_, ci, a
         rep = {"kind": "macro", "program": c['mt'], "inlined": c['it'], "budget": c['b'], "static_opt": c['s'], "matcher_opt": c['m'],
                "impl_macro": a[:1500], "impl_inlined": b_[:1500], "denote_inlined": d[:600]}
         c['rep'] = rep
@@ -151,6 +191,8 @@ def macro_stream(chk, R, rng, n, size_static, tag):
             else:
                 if cr[0] == "OK" and cr[1] == c['cm'][1] and msig(cr)[2] == msig(c['cm'])[2]:
                     dist["nonstatic_other_solution_certified"] += 1
+                elif certificate_search(R, c):
+                    dist["nonstatic_other_solution_certified"] += 1
                 else:
                     chk.violation("macro program of a layout-dependent instruction set succeeded with a result that the in-place program does not reproduce "
                                   "when its global labels are pinned to the claimed addresses", dict(c['rep'], pinned=c['pinned'], impl_pinned=a[:1500]), found=False)
@@ -159,7 +201,14 @@ def macro_stream(chk, R, rng, n, size_static, tag):
             texts = []
             for c in third:
                 vals = symvals(c['ci'][3])
-                lines = pin_globals(list(zip(c['prog'].items, c['prog'].lines())), vals)
+                ends = {i: notes['end'] for (i, notes) in c['inl'].notes}
+                lines = []
+                for idx, (it_, line) in enumerate(zip(c['prog'].items, c['prog'].lines())):
+                    if it_[0] == 'label' and it_[1] in vals:
+                        lines.append('#addr 0x%x' % vals[it_[1]])
+                    lines.append(line)
+                    if idx in ends and ends[idx] in vals:
+                        lines.append('#addr 0x%x' % vals[ends[idx]])      # the text after a macro call starts where it does in place
                 c['hinted'] = c['prog'].isa.text() + '\n'.join(lines) + '\n'
                 texts.append((c['hinted'], 30, c['s'], c['m']))
             ha = R.impl(texts)
